@@ -1122,6 +1122,7 @@ impl DataArc {
         }
     }
 
+    #[cfg_attr(feature = "Verif_Hooks", track_caller)]
     pub fn lock(&self) -> LockResult<MutexGuard<'_, Data>> {
         self.arc.lock()
     }
